@@ -151,7 +151,8 @@ def plan(spec, tier):
 
 
 def numpy_alphabet(spec, level, cap):
-    """Records restricted to what a numpy column can hold: c in str menu, s numeric."""
+    """Records restricted to what a numpy column can hold: c in str menu, s numeric. With a cap the menus are
+    truncated by priority (lowest edge, NaN, below range, ...) as everywhere else."""
     recs = A.records(spec, level, cap=None)
     if level == "full" and "s" in S.fields(spec):
         # an infinite selection weight (differential oracle only: the reference model has no infinite weights)
@@ -168,9 +169,30 @@ def numpy_alphabet(spec, level, cap):
             seen.add(k)
             out.append(r)
     if cap is not None and len(out) > cap:
-        # keep a spread: first, last and evenly spaced in between (deterministic)
-        step = (len(out) - 1) / float(cap - 1)
-        out = [out[int(round(i * step))] for i in range(cap)]
+        # a "diagonal" through the (priority-ordered) menus of the fields the tree reads: the i-th record takes the
+        # i-th value (cyclically) of every field, so the top classes of every field occur and fields vary together
+        fs = sorted(S.fields(spec))
+        menus = {}
+        for f in fs:
+            vals, seen_v = [], set()
+            for r in out:
+                kv = repr(A.show(r[f]))
+                if kv not in seen_v:
+                    seen_v.add(kv)
+                    vals.append(r[f])
+            menus[f] = vals
+        picked, seen_p = [], set()
+        i = 0
+        while len(picked) < cap and i < 4 * cap:
+            r = dict(out[0])
+            for j, f in enumerate(fs):
+                r[f] = menus[f][(i + (j * (i // max(1, len(menus[fs[0]])))) ) % len(menus[f])]
+            k = repr(A.show(norm_rec(r)))
+            if k not in seen_p:
+                seen_p.add(k)
+                picked.append(r)
+            i += 1
+        out = picked
     return out
 
 
